@@ -92,6 +92,8 @@ var paths = []expr{
 }
 
 var tableA = map[string]string{"p": "urn:n1", "q": "urn:n2", "a": "urn:a"}
+var tableS = map[string]string{"p": "urn:n1", "a": "urn:a"} // the submodule that imports less
+
 var tableB = map[string]string{"p": "urn:n2", "r": "urn:n1", "a": "urn:a", "b": "urn:b"}
 
 type placement struct {
@@ -159,6 +161,11 @@ func placements() []placement {
 		}, "/c", false},
 		{"submodule-of-a", "a", "urn:a", func(s string) (string, string) {
 			return "SUB:container c { leaf k { type string; } " + s + " }", ""
+		}, "/c", false},
+		// the submodule imports LESS than its module: n1 as p only; q (imported by the module a and by
+		// nothing in the submodule) is an unknown prefix for a statement written in the submodule
+		{"submodule-of-a-importing-less", "s", "urn:a", func(s string) (string, string) {
+			return "SUBLESS:container c { leaf k { type string; } " + s + " }", ""
 		}, "/c", false},
 	}
 }
@@ -244,6 +251,11 @@ func build(cr caseRec) (mods map[string]string, pl placement, e expr, ok bool) {
 		abody = ""
 		ahdr += " include s;"
 	}
+	if strings.HasPrefix(abody, "SUBLESS:") {
+		mods["s"] = "submodule s { belongs-to a { prefix a; } import n1 { prefix p; } " + abody[8:] + " }"
+		abody = ""
+		ahdr += " include s;"
+	}
 	if strings.HasPrefix(abody, "CLASH:") {
 		abody = abody[6:]
 		ahdr += " include s2;"
@@ -267,6 +279,9 @@ func check(cr caseRec) (vs []engine.Violation, outcome string) {
 	table := tableA
 	if pl.Textual == "b" {
 		table = tableB
+	}
+	if pl.Textual == "s" {
+		table = tableS
 	}
 	want := e.Valid
 	for _, p := range e.Pfx {
